@@ -3,13 +3,13 @@ CONSTANTS NA = 1
           NS = 1
           Ripemd = 0
           MaxVal = 1
-          MaxBal = 1
-          MaxNonce = 1
+          MaxBal = 2
+          MaxNonce = 2
           MaxCode = 1
           MaxSnap = 2
           MaxTx = 1
           Ops = {"BeginTx", "AddBalance", "SubBalance", "SetBalance", "SetNonce", "SetCode", "SetState", "SelfDestruct", "CreateAccount", "EvmCreate", "ReadAccount", "ReadSlot", "Snapshot", "Revert", "Finalise"}
-          BaseKinds = {0, 2, 3}
+          BaseKinds = {0, 1, 2, 3}
           KeepHist = FALSE
           HistLen = 0
           TxEvery = 1
